@@ -217,6 +217,30 @@ def every_xor_value(fields):
                 yield ('right-checksum', [part_of(f, lower=True)])
 
 
+def prefix_xor_zero(fields):
+    """Sentences whose running body XOR returns to 0 at a position inside the payload (one payload character is chosen so),
+    with every printable byte substituted AT and AFTER that position: a checksum computed over only part of the body (a
+    delimiter search that restarts, a split on the wrong character) hides exactly such corruptions."""
+    payload = fields[5]
+    head = b','.join(fields[:5])[1:] + b','              # the body before the payload
+    for k in range(1, len(payload)):
+        run = 0
+        for b in head + payload[:k]:
+            run ^= b
+        # choose payload[k] := running XOR so far  ->  the XOR through position k is 0
+        if 0x30 <= run <= 0x77 and not (0x58 <= run <= 0x5f):
+            f = list(fields)
+            f[5] = payload[:k] + bytes([run]) + payload[k + 1:]
+            base = part_of(f)
+            pos = len(head) + k
+            yield ('plain', [base])
+            for p in (pos, pos + 1, pos - 1):
+                if 0 <= p < len(base.body):
+                    for b in range(0x20, 0x7f):
+                        yield ('subst-at-zero-prefix', [Part(base.d, base.body[:p] + bytes([b]) + base.body[p + 1:], base.hh)])
+            return
+
+
 def checksum_values(fields):
     base = part_of(fields)
     good = int(base.hh, 16)
@@ -291,6 +315,8 @@ def generate(ctx, deep=False):
         cases.extend(checksum_values(f))
     for f in (aiss if (deep or not ctx.quick) else [aiss[0], aiss[-1]]):
         cases.extend(every_xor_value(f))
+    for f in (aiss if (deep or not ctx.quick) else aiss[:6]):
+        cases.extend(prefix_xor_zero(f))
     for f in sents:
         cases.extend(carriers(f))
         cases.append(('plain', [part_of(f)]))
